@@ -184,7 +184,162 @@ class AugExpand(ast.NodeTransformer):
         return node
 
 
-KINDS = {"identity": None, "nested": Nested, "noteq": NotEq, "swapeq": SwapEq, "splitand": SplitAnd, "comp2loop": Comp2Loop, "loop2comp": Loop2Comp, "unelse": UnElse, "augexpand": AugExpand}
+
+
+def _neg(test):
+    if isinstance(test, ast.UnaryOp) and isinstance(test.op, ast.Not):
+        return test.operand
+    return ast.UnaryOp(op=ast.Not(), operand=test)
+
+
+class IfElseInvert(ast.NodeTransformer):
+    """if c: A else: B  ->  if not c: B else: A   (plain two-branch ifs, not elif chains)"""
+    def visit_If(self, node):
+        self.generic_visit(node)
+        if node.orelse and not (len(node.orelse) == 1 and isinstance(node.orelse[0], ast.If)) and not (len(node.body) == 1 and isinstance(node.body[0], ast.If)):
+            return ast.copy_location(ast.If(test=_neg(node.test), body=node.orelse, orelse=node.body), node)
+        return node
+
+
+class GuardInvert(ast.NodeTransformer):
+    """loop body / function body ending in `if c: <body>` (no else)  ->  `if not c: continue/return` + <body>"""
+    def _tail(self, body, jump):
+        if body and isinstance(body[-1], ast.If) and not body[-1].orelse and len(body[-1].body) >= 2:
+            st = body[-1]
+            guard = ast.copy_location(ast.If(test=_neg(st.test), body=[ast.copy_location(jump(), st)], orelse=[]), st)
+            return body[:-1] + [guard] + st.body
+        return body
+
+    def visit_For(self, node):
+        self.generic_visit(node)
+        node.body = self._tail(node.body, ast.Continue)
+        return node
+
+    visit_While = visit_For
+
+    def visit_FunctionDef(self, node):
+        self.generic_visit(node)
+        has_value_return = any(isinstance(x, ast.Return) and x.value is not None for x in ast.walk(node))
+        if not has_value_return and not any(isinstance(x, (ast.Yield, ast.YieldFrom)) for x in ast.walk(node)):
+            node.body = self._tail(node.body, lambda: ast.Return(value=None))
+        return node
+
+
+def _chain_depth(e):
+    d = 0
+    while isinstance(e, ast.Attribute):
+        d, e = d + 1, e.value
+    return d if isinstance(e, ast.Name) else 0
+
+
+class HoistArg(ast.NodeTransformer):
+    """`x = f(..., a.b.c, ...)` / `f(..., a.b.c, ...)` / `return f(...)`: the first positional argument that is a pure attribute chain
+    of depth >= 2 is bound to a fresh local on the line before (one statement per block, to stay modest)"""
+    def __init__(self):
+        self.n = 0
+
+    def _fix(self, body):
+        out = []
+        for st in body:
+            call = None
+            if isinstance(st, ast.Assign) and isinstance(st.value, ast.Call):
+                call = st.value
+            elif isinstance(st, ast.Expr) and isinstance(st.value, ast.Call):
+                call = st.value
+            elif isinstance(st, ast.Return) and isinstance(st.value, ast.Call):
+                call = st.value
+            if call is not None and _pure(call.func):
+                for i, a in enumerate(call.args):
+                    if _chain_depth(a) >= 2 and all(_pure(x) for x in call.args[:i]):
+                        self.n += 1
+                        tmp = f"hoisted_{self.n}"
+                        out.append(ast.copy_location(ast.Assign(targets=[ast.Name(id=tmp, ctx=ast.Store())], value=a), st))
+                        call.args[i] = ast.Name(id=tmp, ctx=ast.Load())
+                        break
+            out.append(st)
+        return out
+
+    def generic_visit(self, node):
+        super().generic_visit(node)
+        for f in ("body", "orelse", "finalbody"):
+            b = getattr(node, f, None)
+            if isinstance(b, list) and b and isinstance(b[0], ast.stmt):
+                setattr(node, f, self._fix(b))
+        return node
+
+
+class InlineTemp(ast.NodeTransformer):
+    """`t = <pure expr>` immediately followed by a simple statement that reads t exactly once, t bound and read nowhere else in the function -> inlined"""
+    def visit_FunctionDef(self, node):
+        self.generic_visit(node)
+        counts = {}
+        for x in ast.walk(node):
+            if isinstance(x, ast.Name):
+                c = counts.setdefault(x.id, [0, 0])
+                c[0 if isinstance(x.ctx, ast.Store) else 1] += 1
+
+        def fix(body):
+            out, i = [], 0
+            while i < len(body):
+                st = body[i]
+                nxt = body[i + 1] if i + 1 < len(body) else None
+                if (isinstance(st, ast.Assign) and len(st.targets) == 1 and isinstance(st.targets[0], ast.Name) and _pure(st.value) and not isinstance(st.value, ast.Constant)
+                        and counts.get(st.targets[0].id) == [1, 1] and isinstance(nxt, (ast.Assign, ast.Expr, ast.Return, ast.AugAssign))
+                        and sum(1 for x in ast.walk(nxt) if isinstance(x, ast.Name) and x.id == st.targets[0].id and isinstance(x.ctx, ast.Load)) == 1):
+                    name, val = st.targets[0].id, st.value
+
+                    class Sub(ast.NodeTransformer):
+                        def visit_Name(self, n):
+                            return copy.deepcopy(val) if n.id == name and isinstance(n.ctx, ast.Load) else n
+
+                    out.append(Sub().visit(nxt))
+                    i += 2
+                    continue
+                out.append(st)
+                i += 1
+            return out
+
+        for sub in ast.walk(node):
+            for f in ("body", "orelse", "finalbody"):
+                b = getattr(sub, f, None)
+                if isinstance(b, list) and b and isinstance(b[0], ast.stmt):
+                    setattr(sub, f, fix(b))
+        return node
+
+
+class SwapAdjacent(ast.NodeTransformer):
+    """two adjacent `name = <pure expr>` statements that do not mention each other's target -> swapped"""
+    def _fix(self, body):
+        out, i = [], 0
+        while i < len(body):
+            a = body[i]
+            b = body[i + 1] if i + 1 < len(body) else None
+
+            def simple(st):
+                return isinstance(st, ast.Assign) and len(st.targets) == 1 and isinstance(st.targets[0], ast.Name) and _pure(st.value)
+
+            if b is not None and simple(a) and simple(b):
+                ta, tb = a.targets[0].id, b.targets[0].id
+                names_a = {x.id for x in ast.walk(a.value) if isinstance(x, ast.Name)}
+                names_b = {x.id for x in ast.walk(b.value) if isinstance(x, ast.Name)}
+                if ta != tb and ta not in names_b and tb not in names_a:
+                    out += [b, a]
+                    i += 2
+                    continue
+            out.append(a)
+            i += 1
+        return out
+
+    def generic_visit(self, node):
+        super().generic_visit(node)
+        for f in ("body", "orelse", "finalbody"):
+            b = getattr(node, f, None)
+            if isinstance(b, list) and b and isinstance(b[0], ast.stmt):
+                setattr(node, f, self._fix(b))
+        return node
+
+
+KINDS = {"identity": None, "nested": Nested, "noteq": NotEq, "swapeq": SwapEq, "splitand": SplitAnd, "comp2loop": Comp2Loop, "loop2comp": Loop2Comp, "unelse": UnElse, "augexpand": AugExpand, "ifelse": IfElseInvert, "guardinv": GuardInvert, "hoistarg": HoistArg, "inlinetemp": InlineTemp, "swapadj": SwapAdjacent}
 
 
 def transform(src, kind):
